@@ -262,6 +262,10 @@ class Executor:
         return self.subscript(base, idx, st, n)
 
     def subscript(self, base, idx, st, n=None):
+        if isinstance(base, tuple):
+            idx = ir.as_int(idx)
+            if not ir.is_const(idx): raise Unsupported('symbolic index into a tuple')
+            return base[idx.val]
         if isinstance(base, SymList):
             idx = ir.as_int(idx)
             L = len(base.items)
